@@ -159,9 +159,11 @@ Theorem C06_form_arm_sound : forall isz (S : dfield), isz_sound isz S -> forall 
 Proof. exact lower_form_sound. Qed.
 Print Assumptions C06_form_arm_sound.
 
-(* vanishing forms: the number 0 for bilinear / linear forms, one zero kernel for a functional; no error *)
+(* vanishing forms: the number 0 for bilinear / linear forms, one zero kernel for a functional; no error.
+   [raw_leaves x] are the integral(d, e) calls of the tree (on a tree of + only: [leaves x], C06_raw_leaves_plain):
+   whatever scalar operators stand around them, a tree whose integrals all vanish is the number 0 *)
 Theorem C06_zero_form : forall isz k x,
-  Forall (fun de => isz (snd de) = true) (leaves x) -> lower isz k x = LZero.
+  Forall (fun de => isz (snd de) = true) (raw_leaves x) -> lower isz k x = LZero.
 Proof. exact lower_zero_form. Qed.
 Print Assumptions C06_zero_form.
 
@@ -170,6 +172,76 @@ Theorem C06_zero_functional : forall isz d e, isz e = true -> members d <> [] ->
   exists r0, In r0 (members d) /\ lower_functional isz d e = LKernels [(r0, [[TZ 0]])].
 Proof. exact lower_functional_zero. Qed.
 Print Assumptions C06_zero_functional.
+
+Theorem C06_raw_leaves_plain : forall x, plain_tree x -> raw_leaves x = leaves x.
+Proof. exact raw_leaves_plain. Qed.
+Print Assumptions C06_raw_leaves_plain.
+
+(* ------------------------------------------------ the arithmetic of integral trees (Integral / IntAdd operators) *)
+(* [iexpr] has the operators of the library as arms: c * I, I * c, I / c, c / I, - I (IWrap), a - b (ISub), the number 0
+   (IZero: 0 + I, I + 0), sum([..]) (ISum).  [leaves x] / [spec_terms x] are the specification: every integral(d, e) of the
+   tree contributes e under the operators between it and the root, to every member of d.  All the theorems of this file
+   that quantify over [x : iexpr] (C06_lowering_is_lossless, C06_every_region_has_a_kernel_partial,
+   C06_targets_are_the_regions, C06_one_kernel_per_region, C06_zero_form) hold for these trees. *)
+(* evaluating the tree with the real operators (re-grouping by region after every operator) conserves, region by region,
+   what the specification says; the result has one integral per region at most and none that is recognised as zero *)
+Theorem C06_integral_tree_conserves : forall isz (S : dfield), isz_sound isz S -> forall x,
+  (forall r, rsum S r (ieval isz x) = rsum S r (spec_terms x)) /\
+  NoDup (map fst (ieval isz x)) /\
+  (forall t, In t (ieval isz x) -> isz (snd t) = false) /\
+  (forall r, In r (map fst (ieval isz x)) -> In r (map fst (spec_terms x))).
+Proof.
+  intros isz S Hz x. split; [intros r; now apply ieval_rsum|]. split; [apply ieval_NoDup|]. split; [apply ieval_nz|apply ieval_keys].
+Qed.
+Print Assumptions C06_integral_tree_conserves.
+
+(* a scalar operator acts on every integral of its operand and is linear: on the specification and on the values *)
+Theorem C06_scalar_operators_distribute : forall isz (S : dfield), isz_sound isz S -> forall w x,
+  spec_terms (IWrap w x) = wmap w (spec_terms x) /\
+  (forall r, rsum S r (ieval isz (IWrap w x)) = wsem S w (rsum S r (ieval isz x))) /\
+  (forall a b, wsem S w (fadd S a b) = fadd S (wsem S w a) (wsem S w b)) /\ wsem S w (f0 S) = f0 S.
+Proof.
+  intros isz S Hz w x. split; [apply spec_terms_wrap|]. split; [intros r; now apply iwrap_rsum|].
+  split; [intros a b; apply wsem_add|apply wsem_zero].
+Qed.
+Print Assumptions C06_scalar_operators_distribute.
+
+(* a - b = a + (-b) (sympy's Expr.__sub__), sum([..]) starts from the number 0, 0 contributes nothing *)
+Theorem C06_difference_and_python_sum : forall a b l,
+  spec_terms (ISub a b) = spec_terms a ++ wmap WNeg (spec_terms b) /\
+  spec_terms (ISum l) = flat_map spec_terms l /\ spec_terms IZero = [].
+Proof. intros a b l. split; [apply isub_spec|]. split; [apply (isum_spec l IZero)|reflexivity]. Qed.
+Print Assumptions C06_difference_and_python_sum.
+
+(* the arms `return self` of Integral.__add__ / __radd__ (o == 0): re-grouping a single integral changes nothing *)
+Theorem C06_adding_zero_returns_the_integral : forall isz r e, isz e = false -> intadd isz [(r, e)] = [(r, e)].
+Proof. exact intadd_single. Qed.
+Print Assumptions C06_adding_zero_returns_the_integral.
+
+(* Integral.__rdiv__ / IntAdd.__rdiv__ are written like __div__: the library reads c / I as I / c *)
+Theorem C06_rdiv_reads_as_div : forall isz c x, ieval isz (IWrap (WRDiv c) x) = ieval isz (IWrap (WDiv c) x).
+Proof. exact rdiv_is_div. Qed.
+Print Assumptions C06_rdiv_reads_as_div.
+
+(* ------------------------------- form objects whose `domain` has entries that are not atomic (FormsM.rform) *)
+(* the form objects the constructors build have atomic keys only: on them the general arm [lower_rform] (kernels keyed by
+   `domain.interior`, Union keys handed to the members) is [lower_form], the block "treating subdomains" is the identity *)
+Theorem C06_constructed_forms_take_the_atomic_arm : forall isz f,
+  form_ok f -> (forall r, In r (f_domain f) \/ In r (map fst (f_expr f)) -> is_iface r = false) ->
+  lower_rform isz (embed f) = option_map (map lift) (lower_form isz f).
+Proof. exact lower_rform_embed. Qed.
+Print Assumptions C06_constructed_forms_take_the_atomic_arm.
+
+(* on any form object, outside the corner case: the kernels are the per-entry kernels after the distribution of the
+   Union-keyed ones to their members (accumulating into kernels already present); per region nothing is lost or
+   duplicated, and no target is a Union *)
+Theorem C06_general_arm_conserves : forall isz (S : dfield) f d_new ks,
+  (forall k, In k (rf_domain f) -> NoDup (members k)) ->
+  (snd (get_trials_tests (rf_kind f)) = [] -> fst (get_trials_tests (rf_kind f)) = []) ->
+  rd_new_of isz f = Some d_new -> d_new <> [] -> lower_rform isz f = Some ks ->
+  ks = distribute d_new /\ (forall r, ksum S r ks = ksum S r d_new) /\ filter is_union (map fst ks) = [].
+Proof. exact lower_rform_conserves. Qed.
+Print Assumptions C06_general_arm_conserves.
 
 (* kernels keyed by a Union are handed to the members: nothing lost, nothing duplicated, no Union key left *)
 Theorem C06_union_keyed_kernels : forall (S : dfield) n m r (d : list (dom * matrix)),
@@ -235,3 +307,39 @@ Example C06_blocks_are_not_symmetric :
   entry (unpack [FVector "U" 2; FScalar "p"]) (unpack [FVector "T" 2; FScalar "q"]) ex_dom ("T", 1) ("p", 0)
   <> entry (unpack [FVector "U" 2; FScalar "p"]) (unpack [FVector "T" 2; FScalar "q"]) ex_dom ("q", 0) ("U", 1).
 Proof. vm_compute. discriminate. Qed.
+
+(* the arithmetic of integrals: 2 * integral(Union(A, B), e) - integral(A, 2 e) + integral(face of B, b) / 3 + (0 + ...):
+   the hypotheses of the theorems hold, region A cancels and is dropped (with the normaliser's zero test), B keeps 2 e,
+   the face keeps b / 3 *)
+Definition ex_two := TZ 2.
+Definition ex_arith : iexpr :=
+  IAdd (ISub (IWrap (WMulL ex_two) (IInt (DUnion [RPatch "A"; RPatch "B"]) ex_dom))
+             (IInt (DReg (RPatch "A")) (TMul ex_two ex_dom)))
+       (ISum [IWrap (WDiv (TZ 3)) (IInt (DReg (RFace "B" 1 true)) ex_bnd); IWrap WNeg (IWrap (WRDiv (TAt (AConst "mu"))) (IInt (DReg (RFace "B" 1 true)) ex_bnd2))]).
+
+Example C06_arithmetic_nonvacuous :
+  leaves_good ex_kind ex_arith /\ no_interface ex_arith /\
+  map fst (spec_terms ex_arith) = [RPatch "A"; RPatch "B"; RPatch "A"; RFace "B" 1 true; RFace "B" 1 true] /\
+  (exists ks, lower tzero ex_kind ex_arith = LKernels ks /\ map fst ks = [RFace "B" 1 true; RPatch "B"] /\
+              Forall (fun km => length (snd km) = 3 /\ Forall (fun row => length row = 3) (snd km)) ks) /\
+  (exists ks, lower tis0 ex_kind ex_arith = LKernels ks /\ map fst ks = [RFace "B" 1 true; RPatch "A"; RPatch "B"]).
+Proof.
+  split; [|split; [|split; [|split]]].
+  - unfold leaves_good. simpl get_trials_tests. cbv iota beta.
+    split; [apply (unpack_NoDup [FVector "T" 2; FScalar "q"]); repeat constructor; simpl; intuition discriminate|].
+    split; [apply (unpack_NoDup [FVector "U" 2; FScalar "p"]); repeat constructor; simpl; intuition discriminate|].
+    repeat constructor; simpl; try reflexivity; intros; apply hom1_additive; vm_compute; reflexivity.
+  - intros r H. vm_compute in H. repeat (destruct H as [<-|H]; [reflexivity|]). destruct H.
+  - reflexivity.
+  - eexists. split; [vm_compute; reflexivity|]. split; [reflexivity|]. repeat constructor.
+  - eexists. split; [vm_compute; reflexivity|]. reflexivity.
+Qed.
+
+(* a hand-assembled Functional whose `domain` lists the two-patch Domain and one of its patches: the kernel keyed by
+   Union(A, B) is handed to A and B and accumulates into the kernel A already has *)
+Definition ex_f2 := TPowN (TAt (AFld true "f" 0 SNone [])) 2.
+Definition ex_raw : rform := mkRForm KFunctional [DReg (RPatch "A"); DDomain ["A"; "B"]] [(RPatch "A", ex_f2)].
+Example C06_union_splitting_accumulates :
+  rd_new_of tis0 ex_raw = Some [(DReg (RPatch "A"), [[ex_f2]]); (DUnion [RPatch "A"; RPatch "B"], [[ex_f2]])] /\
+  lower_rform tis0 ex_raw = Some [(DReg (RPatch "A"), [[TAdd ex_f2 ex_f2]]); (DReg (RPatch "B"), [[ex_f2]])].
+Proof. split; vm_compute; reflexivity. Qed.
